@@ -97,6 +97,7 @@ impl Scenario for Conform {
         let mode_i = (case % 5) as usize;
         let stave = mode_i == 4;
         let mut cfg = GenCfg::swarm(&mut rng, stave);
+        cfg.share_link_ids = stave && rng.chance(1, 3);
         // batch-boundary cases: force an exact packet count on the wire
         let force_count = if rng.chance(1, 12) { Some(*rng.pick(&[99usize, 100, 101, 200, 201])) } else { None };
         if force_count.is_some() {
@@ -2055,8 +2056,13 @@ impl Scenario for Isolate {
         let stave = mode_i == 4;
         let mut cfg = GenCfg::swarm(&mut rng, stave);
         cfg.n_links = rng.range(2, 8) as usize;
+        // two FEE IDs on one link number: legal where validation is per FEE ID
+        cfg.share_link_ids = stave && rng.chance(1, 2);
         let mut st = gen_conforming(&cfg, &mut rng);
         let mut label = CHECK_MODES[mode_i].join(" ");
+        if cfg.share_link_ids {
+            label.push_str(" shared-link-ids");
+        }
         let nf = if rng.chance(1, 4) { 0 } else { rng.range(1, 4) };
         for _ in 0..nf {
             let li = rng.usize_below(st.links.len());
@@ -2094,8 +2100,9 @@ impl Scenario for Isolate {
         let extracted = st.extract_link(li).bytes();
         if !extracted.is_empty() {
             runs.push((IsoRole::Extracted(g), mk(extracted.clone(), &[], &mut rng)));
+            let link_shared = st.links.iter().filter(|l| l.link_id == st.links[li].link_id).count() > 1;
             let f = match rng.below(3) {
-                0 => Filter::Link(st.links[li].link_id),
+                0 if !link_shared => Filter::Link(st.links[li].link_id),
                 1 => Filter::Fee(st.links[li].fee_id),
                 _ => Filter::Stave(st.links[li].fee_id),
             };
